@@ -326,6 +326,46 @@ def failing_stream_item_cases(ctx, seed):
                 run.close()
 
 
+def late_stream_cases(ctx, seed):
+    """A deferred fragment fails synchronously (a null item in a non-null list) while another item of that list is still
+    an outstanding awaitable; when that item completes later it discovers a @stream (or a further @defer) of its own.
+    Whatever it starts then belongs to a fragment nobody will deliver: it must not be left running or open."""
+    schema = c04.rich_inc()
+    inner_sel = ['name tags @stream(initialCount: 1)', 'tags @stream(initialCount: 0) id', 'friends @stream(initialCount: 0) { name }',
+                 'name ... @defer(label: "I") { tags @stream(initialCount: 0) }'][seed % 4]
+    src = 'query Q { a0: me { id } ... @defer(label: "D") { nnMe { nnFriends { %s } } } }' % inner_sel
+    doc = parse(src)
+    if validate(schema, doc):
+        return
+    inner = make_value(schema, seed, 0.0)
+    null_at = 1 + seed % 2
+
+    def value_fn(path, parent_type_name, field_name, args, return_type):
+        if list(path) == ['nnMe', 'nnFriends']:
+            items = [{'__typename': 'User', '__pk': ('nf', i)} for i in range(3)]
+            items[null_at] = None
+            return items
+        return inner(path, parent_type_name, field_name, args, return_type)
+    base_case = {"seed": seed, "source": src, "variables": {}, "fault_rate": 0.0, "late_stream": null_at}
+    for early in (False, True):
+        for j in range(10):
+            sseed = seed * 100 + j
+            pol = ['random', 'fifo', 'lifo', 'slow-consumer', 'phases'][j % 5]
+            stop = None if j % 2 == 0 else ('aclose', j % 3)
+            ctx.count("late_stream_runs")
+            case = {**base_case, "schedule_seed": sseed, "p_async": 0.5, "policy": pol, "early": early, "stop": repr(stop), "with_signal": False}
+            run, sched, hz, obs = run_incremental(schema, doc, {}, value_fn, sseed, p_async=0.5, policy=pol, early=early, stop=stop,
+                                                  p_iter=0.5, p_item_async=0.5, source_burst=1)
+            try:
+                ctx.case()
+                ctx.count("failure_only_runs" if stop is None else "stopped_runs")
+                if stop is not None:
+                    ctx.count("aclose_stops")
+                verdicts(ctx, run, sched, hz, obs, stop, early, src, case)
+            finally:
+                run.close()
+
+
 def run_shard(ctx):
     from ..mon import loop
     loop.selftest()
@@ -336,6 +376,8 @@ def run_shard(ctx):
         long_stream_cases(ctx, base + 31 * k)
     for k in range(ctx.n(6, 60)):
         failing_stream_item_cases(ctx, base + 17 * k)
+    for k in range(ctx.n(12, 120)):
+        late_stream_cases(ctx, base + 13 * k)
     # the template families (streams on async sources, fragments split into several units of work, overlapping and
     # list-nested fragments) get a share of their own: they are where stops meet half-built incremental state
     for k in range(ctx.n(800, 12000)):
@@ -347,6 +389,8 @@ def run_shard(ctx):
 def replay(ctx, case):
     if case.get("long_stream"):
         return long_stream_cases(ctx, case["seed"])
+    if "late_stream" in case:
+        return late_stream_cases(ctx, case["seed"])
     if "failing_stream_item" in case:
         return failing_stream_item_cases(ctx, case["seed"])
     check_request(ctx, case["seed"], 1)
